@@ -7,6 +7,7 @@ also be stored into a register, to improve performance.
 from .transform import FunctionPass
 from .. import ir
 from ..graph.domtree import CfgInfo
+from ..utils.collections import OrderedSet
 
 
 def is_alloc_promotable(alloc_inst: ir.Alloc):
@@ -64,10 +65,10 @@ class Mem2RegPromotor(FunctionPass):
         Each node in the df(x) requires a phi function,
         where x is a block where the variable is defined.
         """
-        defining_blocks = {st.block for st in stores}
+        defining_blocks = OrderedSet(st.block for st in stores)
 
         # Create worklist:
-        block_backlog = set(defining_blocks)
+        block_backlog = OrderedSet(defining_blocks)
 
         has_phi = set()
 
